@@ -210,7 +210,8 @@ def main():
         chk.case_done(ident=(nm, S), nontrivial=True, sample=summ if len(chk.samples) < 3 else None)
         for rule, detail in fails:
             key = f"C06:{nm}:{rule}"
-            if sampler == "ins" and hasattr(zoo.make(model_name), "in_support") and rule == "mean-error-incompatible-with-zero" and detail["mean_error"] > 0:
+            if sampler == "ins" and hasattr(zoo.make(model_name), "in_support") and (
+                    (rule == "mean-error-incompatible-with-zero" and detail["mean_error"] > 0) or rule in ("posterior-variance-off", "posterior-mean-off")):
                 # mechanism, not cell name: importance sampler + a region of zero prior density inside the unit hypercube + evidence too large
                 key = "C06:ins:zero-prior-region-inside-unit-hypercube:evidence-biased-upward"
             chk.violation(key, f"cell {nm} ({sampler}, {model_name}, {kw}) over {len(good)} seeds (failed in two independent rounds): {detail}; summary {summ}",
